@@ -427,6 +427,39 @@ func (d *cnDriver) step() error {
 		raw := d.sent[d.rng.Intn(len(d.sent))]
 		metas = append(metas, cnTxMeta{&cnTxSpec{Kind: "replayed", Validity: "replay"}, raw})
 	}
+	if d.rng.Intn(4) == 0 {
+		// forgeries: an authentic signature under another body.  Source: a transaction this block carries (its signature is
+		// verified in this very block, before or after the forgery), or one the replicas verified in an earlier block.
+		var src []byte
+		fresh := len(d.sent) == 0 || d.rng.Intn(2) == 0
+		if fresh && len(metas) > 0 {
+			if m := metas[d.rng.Intn(len(metas))]; m.spec.Validity == "ok" {
+				src = m.raw
+			}
+		} else if len(d.sent) > 0 {
+			src = d.sent[d.rng.Intn(len(d.sent))]
+		}
+		if src != nil {
+			var st transaction.SignedTransaction
+			if cbor.Unmarshal(src, &st) == nil {
+				for _, a := range append(n.accounts(), n.nodeAccounts()...) {
+					if a.signer.Public().Equal(st.Signature.PublicKey) {
+						nonce := uint64(d.acctField(a.name, "n")) + nonceBump[a.name]
+						to := n.users[d.rng.Intn(len(n.users))].name
+						bitOnly := d.rng.Intn(3) == 0
+						if raw, sp, ok := n.forgeFrom(src, nonce, to, bitOnly, d.rng); ok {
+							pos := len(metas) // after the authentic transaction and with the nonce that would be current then
+							if bitOnly {
+								pos = d.rng.Intn(len(metas) + 1)
+							}
+							metas = append(metas[:pos], append([]cnTxMeta{{sp, raw}}, metas[pos:]...)...)
+						}
+						break
+					}
+				}
+			}
+		}
+	}
 	if d.rng.Intn(15) == 0 {
 		junk := make([]byte, 1+d.rng.Intn(40))
 		d.rng.Read(junk)
